@@ -62,6 +62,16 @@ class Ctx:
         self.audit: List[str] = []
         self.assumptions: List[str] = []
         self.extra: Dict[str, Any] = {}
+        self.errors: List[str] = []
+
+    def guard(self, rule_fn, *args, **kw):
+        """run one rule; an AnalysisError in it is recorded (exit 2 unless a violation is found elsewhere)
+        instead of masking the other rules of the property"""
+        try:
+            return rule_fn(self, *args, **kw)
+        except AnalysisError as e:
+            self.errors.append(f"{getattr(rule_fn, '__name__', 'rule')}: {e}")
+            return None
 
     # -- obligations -------------------------------------------------------------------------------------
     def ok(self, rule: str, instance: str, detail: str = "", nontrivial: bool = True) -> None:
